@@ -30,7 +30,8 @@ V = lambda n: ('var', n)
 PRELUDE = (('setreg', 'hue', N(120)), ('assign', 'x', N(7)), ('assign', 'nm', S('Lamp')),
            ('define', 'id', ('p',), (('return', V('p')),)))
 VALUES = [N(5), N(2.5), S('a b'), ('bin', '<', N(1), N(2)), ('reg', 'hue'), V('x'),
-          ('bin', '*', N(3), N(4)), ('bin', '/', N(7), N(2)), ('call', 'id', (N(9),)), V('nm')]
+          ('bin', '*', N(3), N(4)), ('bin', '/', N(7), N(2)), ('call', 'id', (N(9),)), V('nm'),
+          S('C:\\new {x}')]          # a value containing backslash-n and braces is text, not markup
 DEVICE = ('act', 'on', (('light', S('a')),))
 
 
@@ -54,7 +55,7 @@ def alphabet():
     out += [('printf', f, a) for f, a in (
         ('{}', (N(5),)), ('{} {}', (V('x'), S('q'))), ('{hue}', ()), ('{x}:{}', (N(2.5),)),
         ('{1} {0}', (N(1), N(2))), ('a\\nb', ()), ('{:>6}|', (V('x'),)), ('{nm:<6}|{:.2f}', (N(2.5),)),
-        ('end\\n', ()))]
+        ('end\\n', ()), ('{}|{nm}', (S('C:\\new'),)), ('{} {}', (N(1), N(2))))]
     out.append(DEVICE)
     return out
 
